@@ -538,6 +538,54 @@ def indexed_stat_cases(draw):
             "axis": draw(st.one_of(st.none(), st.integers(0, 3))), "stat": draw(st.sampled_from(["minimum", "maximum", "mean", "sum", "median"]))}
 
 
+# --------------------------------------------------------------------------- log histograms over many orders of magnitude
+
+def fn_log_hist(spec, rec):
+    """1-d log-space histograms whose range ends are data values, at magnitudes from 1e-12 to 1e12: every sample in
+    [lo, hi] is counted exactly once (the totals equal the number of in-range selected values), the samples equal to the
+    limits included."""
+    from glue.core import Data
+    vals = np.array([m * 10.0 ** e for m, e in spec["vals"]], dtype=float)
+    d = Data(label="wide", x=vals, w=np.arange(len(vals), dtype=float) + 1)
+    lo, hi = float(vals[spec["lo"] % len(vals)]), float(vals[spec["hi"] % len(vals)])
+    if lo == hi:
+        rec.label("skipped:zero-width-range")
+        return
+    if spec["reverse"]:
+        rng = (max(lo, hi), min(lo, hi))
+    else:
+        rng = (min(lo, hi), max(lo, hi))
+    a, b = min(lo, hi), max(lo, hi)
+    sel = vals >= spec["thr"] * a if spec["subset"] else np.ones(len(vals), dtype=bool)
+    state = (d.id["x"] >= spec["thr"] * a) if spec["subset"] else None
+    inside = sel & (vals >= a) & (vals <= b)
+    nb = spec["bins"]
+    for weights in (None, d.id["w"]):
+        try:
+            got = np.asarray(d.compute_histogram([d.id["x"]], range=[rng], bins=[nb], log=[True], subset_state=state, weights=weights), dtype=float)
+        except Exception as e:  # noqa
+            if blame(e)[0] != "glue":
+                raise
+            raise Mismatch("log-hist-raises/%s" % type(e).__name__, repr(e)[:300])
+        total = float(inside.sum()) if weights is None else float(np.asarray(d["w"])[inside].sum())
+        if got.shape != (nb,) or abs(got.sum() - total) > 1e-9 * max(1.0, total):
+            raise Mismatch("log-hist-total-differs" + ("/weights" if weights is not None else ""),
+                           {"range": list(rng), "bins": nb, "got": got.tolist(), "expected_total": total, "values": vals.tolist()})
+        edge_hi = float((inside & (vals == b)).sum()) if weights is None else float(np.asarray(d["w"])[inside & (vals == b)].sum())
+        last = got[-1]          # (a reversed range is sorted by compute_histogram; the bins are not reversed)
+        if last + 1e-9 < edge_hi:
+            raise Mismatch("log-hist-drops-samples-on-the-upper-limit", {"range": list(rng), "got": got.tolist()})
+    big = max(abs(np.log10(a)), abs(np.log10(b)))
+    rec.nt(bool(inside.sum() >= 2) and big >= 4)
+    rec.label("log-hist:decades:%s" % ("<4" if big < 4 else ("4-8" if big < 8 else ">=8")), "reverse" if spec["reverse"] else "forward")
+
+
+log_hist_cases = st.fixed_dictionaries({
+    "vals": st.lists(st.tuples(st.sampled_from([1.0, 1.3, 2.0, 2.5, 3.7, 5.0, 6.1, 7.9, 9.9]), st.integers(-12, 12)).map(list), min_size=2, max_size=8),
+    "lo": st.integers(0, 7), "hi": st.integers(0, 7), "bins": st.integers(1, 5), "reverse": st.booleans(),
+    "subset": st.booleans(), "thr": st.sampled_from([0.5, 1.0, 2.0])})
+
+
 # --------------------------------------------------------------------------- statistics of a selection defined on a pixel-aligned dataset
 
 def fn_aligned_stat(spec, rec):
@@ -571,11 +619,12 @@ def aligned_stat_cases(draw):
 
 
 def checks(tier):
-    n = {"quick": (8000, 3000, 1000, 600, 1200), "thorough": (160000, 60000, 20000, 12000, 24000)}.get(tier, (10, 10, 10, 10, 10))
+    n = {"quick": (8000, 3000, 1000, 600, 1200, 2000), "thorough": (160000, 60000, 20000, 12000, 24000, 40000)}.get(tier, (10, 10, 10, 10, 10, 10))
     return [
         Check("statistics", fn_stat, strategy=stat_cases(), examples=n[0]),
         Check("histograms", fn_hist, strategy=hist_cases(), examples=n[1]),
         Check("indexed_statistics", fn_indexed_stat, strategy=indexed_stat_cases(), examples=n[2]),
         Check("viewer_layer_products", fn_layer_products, strategy=product_cases(), examples=n[3]),
         Check("aligned_statistics", fn_aligned_stat, strategy=aligned_stat_cases(), examples=n[4]),
+        Check("log_histograms_wide", fn_log_hist, strategy=log_hist_cases, examples=n[5]),
     ]
